@@ -27,12 +27,10 @@ theorem conGet_NP {o self con key n} (hs : NP self) (hn : NP con)
   | doc keys obj =>
     simp only [conGet] at h
     split at h
-    · cases h; exact hs
-    · split at h
-      · rename_i n' hl
-        cases h
-        exact ((NP_doc _ _).1 hn).2.2 _ (lookupN_mem hl)
-      · contradiction
+    · rename_i n' hl
+      cases h
+      exact ((NP_doc _ _).1 hn).2.2 _ (lookupN_mem hl)
+    · contradiction
   | ary nodes =>
     rw [NP_ary] at hn
     simp only [conGet] at h
@@ -41,19 +39,15 @@ theorem conGet_NP {o self con key n} (hs : NP self) (hn : NP con)
       | contradiction
       | (cases h; exact hs)
       | (cases h; exact hn _ (List.mem_of_getElem? ‹_›))
-  | docNil =>
-    simp only [conGet] at h
-    split at h
-    · cases h; exact hs
-    · contradiction
+  | docNil => simp [conGet] at h
   | nilAry => simp [conGet] at h
   | nil => simp [conGet] at h
   | raw c => simp [conGet] at h
 
-/-- a successful `get` with a non-empty key on a parsed object found a map entry -/
-theorem conGet_doc_lookup {o self keys obj key n} (hk : key ≠ [])
+/-- a successful `get` on a parsed object found a map entry -/
+theorem conGet_doc_lookup {o self keys obj key n}
     (h : conGet o self (.doc keys obj) key = .ok n) : lookupN key obj = some n := by
-  simp only [conGet, hk, if_false] at h
+  simp only [conGet] at h
   split at h
   · rename_i hl; cases h; exact hl
   · contradiction
